@@ -99,6 +99,8 @@ def route_graph(ctx, mol, rng, force=None):
         if route == "v3000":
             st = random_style(rng, mol)
             st.star = False
+            if rng.random() < 0.5:
+                st.split, st.split_lines, st.max_len = "kw", "atoms+bonds", 79  # wraps exactly where an isotope/radical item begins
             return mr.graph_from_molfile_text(ctab.render_v3000(mol, st, rng))
         return mr.graph_from_molfile_text(ctab.render_v2000(mol, ctab.V2Style(encoding=rng.choice(["lines", "codes", "stale"]), per_line=rng.choice([0, 1, 2, 3, 5, 8]),
                                                                               dt_symbols=rng.random() < 0.5, unrelated=rng.choice([0, 0.4, 0.7]),
